@@ -8,16 +8,26 @@ res = {}
 p = os.path.join(ROOT, "seeded", "results.json")
 if os.path.exists(p):
     res = json.load(open(p))
-for sid in sorted(os.listdir(os.path.join(ROOT, "seeded"))):
+from concurrent.futures import ThreadPoolExecutor
+JOBS = int(os.environ.get("SEEDED_JOBS", "4"))
+
+
+def one(sid):
     d = os.path.join(ROOT, "seeded", sid)
-    if not os.path.isdir(d) or (only and sid not in only and sid.split("-")[0] not in only):
-        continue
     meta = json.load(open(os.path.join(d, "meta.json")))
     prop = meta.get("property_for_detection") or meta.get("property", sid.split("-")[0])
     out = subprocess.run([os.path.join(ROOT, "tools", "try_patch.sh"), os.path.join(d, "patch.diff"), prop],
                          stdout=subprocess.PIPE, stderr=subprocess.STDOUT, text=True).stdout
     detected = "VIOLATION property=%s" % prop in out
     first = next((l for l in out.splitlines() if l.startswith("#")), "")
-    res[sid] = {"property": prop, "detected": detected, "first_report": first[:300]}
-    print(sid, "DETECTED" if detected else "MISSED", first[:160])
+    print(sid, "DETECTED" if detected else "MISSED", first[:160], flush=True)
+    return sid, {"property": prop, "detected": detected, "first_report": first[:300]}
+
+
+sids = [sid for sid in sorted(os.listdir(os.path.join(ROOT, "seeded")))
+        if os.path.isdir(os.path.join(ROOT, "seeded", sid))
+        and (not only or sid in only or sid.split("-")[0] in only or any(o.startswith("-") and o in sid for o in only))]
+with ThreadPoolExecutor(JOBS) as ex:
+    for sid, r in ex.map(one, sids):
+        res[sid] = r
 json.dump(res, open(p, "w"), indent=1, sort_keys=True)
